@@ -30,6 +30,7 @@ import Driver.Nms
 import Driver.Sites
 import Driver.G72x
 import Driver.Small3
+import Driver.Gsm
 open Sf
 
 def lawOf (s : String) : Option G711.Law :=
@@ -105,4 +106,5 @@ def main (args : List String) : IO UInt32 := do
   | "sites" :: _ => SitesDriver.cmd
   | "g72x" :: rest => Driver.G72x.cmd rest
   | "small3" :: rest => Driver.Small3.cmd rest
+  | "gsm" :: rest => Driver.Gsm.cmd rest
   | _ => IO.eprintln "usage: sfmodel <g711|...> ..."; return 2
